@@ -9,8 +9,10 @@ from . import cfgfamily, cfgmachine
 
 def run(tier, seed):
     out = cfgmachine.run_machine("C06", [], ["C06_Unchanged"], tier, seed)
-    # second instance: the textual / numeric field classes inside a configuration
-    out = cfgmachine.merge(out, cfgmachine.run_machine("C06", [], ["C06_Unchanged"], tier, seed + 7, schema="SchemaB"))
+    # second instance: the textual / numeric field classes inside a configuration (thorough tier;
+    # the quick tier meets those classes in the generated family)
+    if tier != "quick":
+        out = cfgmachine.merge(out, cfgmachine.run_machine("C06", [], ["C06_Unchanged"], tier, seed + 7, schema="SchemaB"))
     out = cfgmachine.merge(out, cfgfamily.run_family("C06", [], ["C06_Unchanged"], tier, seed))
     try:
         from . import loadfail
